@@ -463,7 +463,53 @@ fn simplify(o: &str, args: &[&str]) -> Res {
             catch(|| RBig::simplest_from_f64(f))
                 .map(|v| v.map(|r| r.show()).unwrap_or_else(|| "none".into()))
         }
+        "fromfloat" => {
+            // s.fromfloat <mode> d:<base> <signif hex int> d:<exp> d:<precision>
+            let mode = arg(args, 0)?;
+            let base = p_usize(arg(args, 1)?)?;
+            let signif = p_ibig(arg(args, 2)?)?;
+            let exp = p_dec(arg(args, 3)?)? as isize;
+            let prec = p_usize(arg(args, 4)?)?;
+            from_float(mode, base, signif, exp, prec)
+        }
         _ => Err("__none__".into()),
+    }
+}
+
+fn from_float_g<R: dashu_float::round::ErrorBounds, const B: dashu_int::Word>(
+    signif: IBig,
+    exp: isize,
+    prec: usize,
+) -> Res {
+    catch(|| {
+        let repr = dashu_float::Repr::<B>::new(signif.clone(), exp);
+        let f = dashu_float::FBig::<R, B>::from_repr(repr, dashu_float::Context::<R>::new(prec));
+        RBig::simplest_from_float(&f)
+    })
+    .map(|v| v.map(|r| r.show()).unwrap_or_else(|| "none".into()))
+}
+
+fn from_float(mode: &str, base: usize, signif: IBig, exp: isize, prec: usize) -> Res {
+    use dashu_float::round::mode::*;
+    macro_rules! by_base {
+        ($R:ty) => {
+            match base {
+                2 => from_float_g::<$R, 2>(signif, exp, prec),
+                3 => from_float_g::<$R, 3>(signif, exp, prec),
+                10 => from_float_g::<$R, 10>(signif, exp, prec),
+                16 => from_float_g::<$R, 16>(signif, exp, prec),
+                _ => Err("bad-arg base".into()),
+            }
+        };
+    }
+    match mode {
+        "Zero" => by_base!(Zero),
+        "Away" => by_base!(Away),
+        "Up" => by_base!(Up),
+        "Down" => by_base!(Down),
+        "HalfAway" => by_base!(HalfAway),
+        "HalfEven" => by_base!(HalfEven),
+        _ => Err("bad-arg mode".into()),
     }
 }
 
